@@ -72,27 +72,30 @@ theorem C07_connect_initiator_continues (s : Sess) (hc : s.st.connected = false)
     rw [q4, c1]
   · show Obs.wire logon ∈ (sendLogonInReplyTo (connectBase s) false).log
     rw [q6 c2]; simp [logon]
-  · show (logonMsg (connectBase s) false).f.get? 141 = none
-    unfold logonMsg mkOut Fields.get?
-    simp
+  · exact logonMsgX_no141 _ _
 
 /-! ## a Logon carrying ResetSeqNumFlag=Y -/
 
 /-- **received (acceptor).**  In the Logon state, an inbound Logon that passes the gates, carries 141=Y, is numbered 1 and
     is not the echo of a reset we asked for: the session is established, both counters are 2 (the inbound Logon was number 1,
-    the reply Logon is outbound number 1), the reply carries 141=Y and is the only stored message, `sentReset` is down. -/
+    the reply Logon is outbound number 1), the reply carries 141=Y and is the only stored message, `sentReset` is down.
+    `hnx` (new with EnableNextExpectedMsgSeqNum): the Logon does not claim, in tag 789, a number above 1 — after the reset
+    we have sent nothing, such a Logon is refused (C07_next_expected_ahead_refused); without the option, or without a readable
+    789, the hypothesis holds (`nxAbove_off`, `nxAbove_absent`).  The reply is `logonMsgRe base true m`: with the option on
+    and a readable 789 in `m` it carries 789 = 2 (C07_next_expected_reply). -/
 theorem C07_logon_reset_received (s : Sess) (m : InMsg) (hi : s.cfg.initiator = false) (hk : kindOf m = "A")
     (h5 : (s.cfg.bs == 5 && !m.f.has 1137) = false) (hg : GateMsg s.cfg m) (ht : TimeGate s m)
-    (hv : callbackVerdict m = none) (hf : logonResetFlag m = true) (hsr : s.sentReset = false) (h34 : getInt m 34 = .val 1) :
-    ∃ base : Sess, base.cfg = s.cfg ∧
-    let reply : OutMsg := { stamp base ((logonMsg base true).inReplyTo m) with seq := 1 }
+    (hv : callbackVerdict m = none) (hf : logonResetFlag m = true) (hsr : s.sentReset = false) (h34 : getInt m 34 = .val 1)
+    (hnx : nxAbove s.cfg m 1 = false) :
+    ∃ base : Sess, base.cfg = s.cfg ∧ base.store.target = 1 ∧
+    let reply : OutMsg := { stamp base ((logonMsgRe base true m).inReplyTo m) with seq := 1 }
     let r := logonFixMsgIn s m
     r.2 = .inSession ∧ r.1.store.sender = 2 ∧ r.1.store.target = 2 ∧ r.1.sentReset = false
     ∧ r.1.store.msgs = (if s.cfg.persist then [(1, reply)] else [])
     ∧ (141, "Y") ∈ reply.f ∧ reply.kind = "A" ∧ reply.seq = 1
     ∧ (s.out = true → Obs.wire reply ∈ r.1.log) ∧ Obs.onLogon ∈ r.1.log ∧ Obs.reset ∈ r.1.log := by
-  obtain ⟨base, hb, h⟩ := logon_reset_received s m hi h5 hg ht hv hf hsr h34
-  refine ⟨base, hb, ?_⟩
+  obtain ⟨base, hb, hbt, h⟩ := logon_reset_received s m hi h5 hg ht hv hf hsr h34 hnx
+  refine ⟨base, hb, hbt, ?_⟩
   intro reply r
   have hr : r = ((handleLogon s m).1, .inSession) := logonFixMsgIn_of_ok s m hk h.1
   rw [hr]
@@ -173,7 +176,7 @@ theorem C07_own_reset_answer_not_answered (s : Sess) (m : InMsg) (hsr : s.sentRe
     `C07.echo_of_own_reset_resets_again{role=acceptor}` on the unfixed tree) -/
 theorem C07_orig_echo_of_own_reset_resets_again (s : Sess) (m : InMsg) (hi : s.cfg.initiator = false) :
     let base := replyBase s m
-    let again : OutMsg := { stamp base ((logonMsg base true).inReplyTo m) with seq := 1 }
+    let again : OutMsg := { stamp base ((logonMsgRe base true m).inReplyTo m) with seq := 1 }
     let s' := logonReplyOrig s m true
     s'.store.epoch = s.store.epoch + 1 ∧ s'.store.sender = 2 ∧ s'.store.target = 1
     ∧ s'.store.msgs = (if s.cfg.persist then [(1, again)] else []) ∧ (141, "Y") ∈ again.f ∧ again.kind = "A"
@@ -186,7 +189,7 @@ theorem C07_orig_echo_of_own_reset_resets_again (s : Sess) (m : InMsg) (hi : s.c
     rw [hi]; rfl
   obtain ⟨q1, q2, q3, _, _, _, _, q8, q9⟩ := sendLogonRe_reset base m
   rw [hs']
-  refine ⟨by rw [q8, b3], q1, q2, by rw [q3, b1], logonMsg_mem141 _, rfl, fun ho => ?_⟩
+  refine ⟨by rw [q8, b3], q1, q2, by rw [q3, b1], logonMsgRe_mem141 _ _, rfl, fun ho => ?_⟩
   have := q9 (by rw [b4]; exact ho)
   rw [this]
   exact ⟨by simp [again], by simp⟩
